@@ -317,7 +317,59 @@ def opt_unwrap_or_default_set(ex, c, a, d):
     return MapV((), d or "HashSet", "Set<" in c)
 
 
+def _insert_kv(ex, m, kv, val):
+    """m with (kv -> val) inserted (replacing an equal key); forks on key equality"""
+    k = key_term(ex, kv)
+    i = _find(ex, m, k)
+    if m.is_set:
+        return m if i is not None else MapV(m.items + ((k, None, kv),), m.ty, True)
+    if i is not None:
+        _wr(ex, m.items[i][1], val)
+        return m
+    return MapV(m.items + ((k, ex.ctx.ref_to(val), kv),), m.ty, False)
+
+
+def it_collect_hashed(ex, c, a, d):
+    """Iterator::collect::<HashSet<_>> / ::<HashMap<_, _>> over a list iterator (of keys / of (key, value) pairs)"""
+    it = deref(ex, a[0])
+    if not _is_it(it):
+        return ENV_PASS
+    is_set = bool(re.search(r"collect::<(?:std::collections::)?(?:Hash|BTree)Set<", c))
+    m = MapV((), d or c, is_set)
+    for x in _rest(ex, it):
+        x = deref(ex, x) if isinstance(x, RefV) else x
+        if is_set:
+            m = _insert_kv(ex, m, x, None)
+        else:
+            m = _insert_kv(ex, m, x.fields[0], x.fields[1])
+    return m
+
+
+def map_extend(ex, c, a, d):
+    """HashMap::extend / HashSet::extend with another model map, a list or a list iterator"""
+    m = _map(ex, a[0])
+    if m is None:
+        return ENV_PASS
+    src = deref(ex, a[1]) if isinstance(a[1], RefV) else a[1]
+    if isinstance(src, MapV):
+        pairs = [(kv, (deref(ex, cell) if cell is not None else None)) for _, cell, kv in src.items]
+    elif isinstance(src, ListV) or _is_it(src):
+        items = list(src.items) if isinstance(src, ListV) else _rest(ex, src)
+        pairs = []
+        for x in items:
+            x = deref(ex, x) if isinstance(x, RefV) else x
+            pairs.append((x, None) if m.is_set else (x.fields[0], x.fields[1]))
+    else:
+        return ENV_PASS
+    for kv, val in pairs:
+        m = _insert_kv(ex, m, kv, val)
+    _wr(ex, a[0], m)
+    return UNIT
+
+
 EXTRAS = [
+    (rx(r" as (?:std::iter::|core::iter::)?Iterator>::collect::<(?:std::collections::)?(?:Hash|BTree)(?:Set|Map)<"), it_collect_hashed),
+    (rx(r"^<(?:std::collections::)?(?:Hash|BTree)(?:Set|Map)<.*> as Extend<.*>>::extend::<"), map_extend),
     (rx(r"^Option::<(?:std::collections::)?(?:Hash|BTree)(?:Map|Set)<.*>>::unwrap_or_default$"), opt_unwrap_or_default_set),
     (rx(r" as (?:std::iter::|core::iter::)?Iterator>::unzip::<"), it_unzip),
     (rx(r"^<(?:std::collections::)?(?:VecDeque|Vec)<.*> as Extend<.*>>::extend::<"), coll_extend),
